@@ -153,6 +153,13 @@ fn materialise(c: &Case) -> Result<Mat, String> {
                 }
             }
         }
+        // every third sample also carries a contig shorter than k (an unplaced fragment, an empty record
+        // or a few bases): it holds no split k-mer and must not affect anything, wherever it stands
+        if (j + k) % 3 == 0 {
+            let frag: Vec<u8> = gen::filler(k, j)[..(sk as usize + j) % k].to_vec();
+            let at = (sk as usize >> 2) % (recs2.len() + 1);
+            recs2.insert(at, frag);
+        }
         // names deliberately not in sorted order (the output must follow input order, not name order)
         samples.push((format!("{}{j}", ["m", "c", "x", "a", "t", "g", "p", "e", "z", "k"][j % 10]), recs2));
     }
